@@ -10,8 +10,10 @@ import (
 	"io"
 	"os"
 	"os/exec"
+	"regexp"
 	"strconv"
 	"strings"
+	"sync"
 	"testing"
 	"time"
 	_ "time/tzdata"
@@ -294,6 +296,138 @@ func mkLoggerProgress(apply bool, others []string) *mc.Exec {
 	return &mc.Exec{Body: body, Check: check}
 }
 
+// ---- loggers: what a logger writes has the shape it has alone ----
+
+// lockedBuf is a log destination of one thread of a scenario.
+type lockedBuf struct{ b bytes.Buffer }
+
+func (w *lockedBuf) Write(p []byte) (int, error) { return w.b.Write(p) }
+
+var timeField = regexp.MustCompile(`time="[^"]*"`)
+
+// shapeOf reduces a log line to what does not depend on the moment: the time
+// is blanked; the instance (host name) and version values are process constants.
+func shapeOf(line string) string { return timeField.ReplaceAllString(line, `time=T`) }
+
+// mkLoggerShape: several threads obtain loggers (same and different names) and
+// log one line each to their own destination; every line must have exactly the
+// shape the same call sequence produces alone (in a process of its own).
+func mkLoggerShape(names []string) *mc.Exec {
+	bufs := make([]*lockedBuf, len(names))
+	body := func() {
+		logger.McResetRegistry()
+		for i, n := range names {
+			i, n := i, n
+			bufs[i] = &lockedBuf{}
+			mc.GoNamed(fmt.Sprintf("t%d", i), func() {
+				l := logger.NewLogger(n)
+				l.SetOutput(bufs[i])
+				l.Info("hello from thread ", i)
+			})
+		}
+	}
+	check := func(e *mc.End) error {
+		if !e.AllFinished() {
+			return fmt.Errorf("deadlock: %v", e.Parked())
+		}
+		// loggers of one name are one instance: its lines go to the destination
+		// set last; judge every line wherever it landed
+		var lines []string
+		for _, b := range bufs {
+			for _, l := range strings.Split(strings.TrimSpace(b.b.String()), "\n") {
+				if l != "" {
+					lines = append(lines, l)
+				}
+			}
+		}
+		if len(lines) != len(names) {
+			return fmt.Errorf("[key=logger-line-shape] %d threads logged one line each, %d lines were written: %q", len(names), len(lines), lines)
+		}
+		for _, l := range lines {
+			var i int
+			k := strings.Index(l, "hello from thread ")
+			if k < 0 {
+				return fmt.Errorf("[key=logger-line-shape] unreadable line %q", l)
+			}
+			if _, err := fmt.Sscanf(l[k+len("hello from thread "):], "%d", &i); err != nil || i >= len(names) {
+				return fmt.Errorf("[key=logger-line-shape] unreadable line %q", l)
+			}
+			name := names[i]
+			want := loggerAlone(name, i)
+			if shapeOf(l) != want {
+				return fmt.Errorf("[key=logger-line-shape] logger %q wrote %q next to other callers; alone the same call writes %q", name, shapeOf(l), want)
+			}
+		}
+		return nil
+	}
+	return &mc.Exec{Body: body, Check: check}
+}
+
+var (
+	loggerAloneMu    sync.Mutex
+	loggerAloneCache = map[string]string{}
+)
+
+// loggerAlone is the line NewLogger(name).Info("hello from thread ", i) writes
+// in a process in which nothing else has touched the logger package.
+func loggerAlone(name string, i int) string {
+	key := fmt.Sprintf("%s/%d", name, i)
+	loggerAloneMu.Lock()
+	defer loggerAloneMu.Unlock()
+	if v, ok := loggerAloneCache[key]; ok {
+		return v
+	}
+	cmd := exec.Command(os.Args[0], "-test.run=^TestLoggerAlone$")
+	cmd.Env = append(os.Environ(), "C08_LOGGER_ALONE="+key)
+	out, err := cmd.CombinedOutput()
+	for _, l := range strings.Split(string(out), "\n") {
+		if r, ok := strings.CutPrefix(l, "ALONE:"); ok {
+			loggerAloneCache[key] = r
+			return r
+		}
+	}
+	panic(fmt.Sprintf("logger %s alone: no result (%v)\n%s", key, err, out))
+}
+
+// TestLoggerAlone is the child side of loggerAlone.
+func TestLoggerAlone(t *testing.T) {
+	v := os.Getenv("C08_LOGGER_ALONE")
+	if v == "" {
+		t.Skip("helper of loggerAlone")
+	}
+	k := strings.LastIndex(v, "/")
+	i, _ := strconv.Atoi(v[k+1:])
+	var b bytes.Buffer
+	l := logger.NewLogger(v[:k])
+	l.SetOutput(&b)
+	l.Info("hello from thread ", i)
+	fmt.Println("ALONE:" + shapeOf(strings.TrimSpace(b.String())))
+}
+
+// mkLoggerFormat: one logger writes to a terminal first, then an independent
+// logger writes to a plain destination: its line must be what it is alone.
+func mkLoggerFormat(tty *os.File) *mc.Exec {
+	var got string
+	body := func() {
+		logger.McResetRegistry()
+		a := logger.NewLogger("on-a-terminal")
+		a.SetOutput(tty)
+		a.Info("first line of the process, to a terminal")
+		var b bytes.Buffer
+		l := logger.NewLogger("plain")
+		l.SetOutput(&b)
+		l.Info("hello from thread ", 0)
+		got = shapeOf(strings.TrimSpace(b.String()))
+	}
+	check := func(e *mc.End) error {
+		if want := loggerAlone("plain", 0); got != want {
+			return fmt.Errorf("[key=logger-line-shape] after another logger wrote to a terminal, logger \"plain\" writes %q; alone it writes %q", got, want)
+		}
+		return nil
+	}
+	return &mc.Exec{Body: body, Check: check}
+}
+
 // ---- byte slice pools ----
 
 func base(b []byte) uintptr {
@@ -509,6 +643,21 @@ func scenarios() []hx.Scenario {
 			Name: fmt.Sprintf("enc %v || %v || %v", ef, pair[0], pair[1]), Class: "enc/v1-shared-buffer-pool", Shards: 8,
 			Opts: mc.Options{Delay: true, MinBound: 2, Bound: 3, MaxSteps: 20000},
 			Mk:   func() *mc.Exec { return mkEnc(ef, pair[0], pair[1]) },
+		})
+	}
+	for _, names := range [][]string{{"x", "x"}, {"x", "y"}, {"x", "x", "y"}} {
+		names := names
+		out = append(out, hx.Scenario{
+			Name: fmt.Sprintf("logger-shape %v", names), Class: "logger-registry",
+			Opts: mc.Options{Delay: true, MinBound: 2, Bound: 3, MaxSteps: 20000},
+			Mk:   func() *mc.Exec { return mkLoggerShape(names) },
+		})
+	}
+	if tty, err := os.OpenFile("/dev/ptmx", os.O_RDWR, 0); err == nil {
+		out = append(out, hx.Scenario{
+			Name: "logger-format terminal first", Class: "logger-registry",
+			Opts: mc.Options{Bound: 0, Delay: true},
+			Mk:   func() *mc.Exec { return mkLoggerFormat(tty) },
 		})
 	}
 	for _, others := range [][]string{{"b"}, {"b", "c"}, {"a2", "b"}} {
